@@ -811,6 +811,12 @@ func (e *SpecEnv) call(n *ECall) SV {
 					return SV{T: TTrue, Ty: tBool}
 				}
 				return SV{T: mk(SBool, "distinct", ts...), Ty: tBool}
+			case "called":
+				id, ok := n.Args[0].(*EIdent)
+				if !ok || e.ft == nil {
+					sfail("called(name): a callee name is expected")
+				}
+				return SV{T: e.h.ghostVar(e.st, "$called_"+id.Name, SBool), Ty: tBool}
 			case "sameArray":
 				a := e.val(e.tr(n.Args[0]))
 				b := e.val(e.tr(n.Args[1]))
